@@ -54,6 +54,17 @@ func InstallExtensions() {
 	soyjs.Funcs["vpush"] = soyjs.Func{Name: "vpush", Apply: func(js soyjs.JSWriter, args []ast.Node) {
 		js.Write("vpush(", args[0], ", ", args[1], ")")
 	}, ValidArgLengths: []int{2}}
+	// vwrap:[a, b] wraps the value in the elements of its list argument
+	soyhtml.PrintDirectives["vwrap"] = soyhtml.PrintDirective{Apply: func(v data.Value, args []data.Value) data.Value {
+		out := v.String()
+		if l, ok := args[0].(data.List); ok {
+			for _, e := range l {
+				out = e.String() + out + e.String()
+			}
+		}
+		return data.String(out)
+	}, ValidArgLengths: []int{1}}
+	soyjs.PrintDirectives["vwrap"] = soyjs.PrintDirective{Name: "vwrap"}
 	soyjs.PrintDirectives["vfail"] = soyjs.PrintDirective{Name: "vfail"}
 	soyjs.PrintDirectives["vbang"] = soyjs.PrintDirective{Name: "vbang"}
 	soyjs.PrintDirectives["vq"] = soyjs.PrintDirective{Name: "vq", CancelAutoescape: true}
